@@ -18,8 +18,12 @@ A scope's identity `ScopeS.ident` is the SANITIZED key; `obtain t r` carries the
 `Subscope` looks the raw key up under the read lock, and on the write-locked path looks `san r` up, registers a
 new scope under `san r` and adds the alias `r ↦ scope` when `r` is not registered.  The re-acquire path removes
 the closed scope under BOTH keys (`removeWithRLock` twice, each with its own unlock / lock / unlock / relock
-hand-over).  A report pass iterates over ENTRIES (keys), so a scope registered under two keys is visited once
-per key, and each removal removes only the entry of the key being visited, by identity.
+hand-over).  A report pass iterates over ENTRIES `(key, scope object)`, so a scope registered under two keys is visited
+once per key, and each removal removes only the entry of the key being visited, by identity.  An entry is produced at
+most once per pass (the pass remembers the entries `(key, scope id)` it has produced, `Pc.passIter visited`); a key whose
+entry was deleted and that was registered again for a NEW scope object is a new entry and may be produced again by the
+same pass (Go: "if a map entry is created during iteration, that entry may be produced during the iteration or may be
+skipped").
 With `san = id` the alias is never added and the second removal finds nothing to remove.
 -/
 namespace Tally.Registry
@@ -41,13 +45,17 @@ deriving Repr, DecidableEq
 inductive Pc
   | idle
   /- a report pass over the shard -/
-  | passIter (visited : List Nat)                                  -- holds RLock; about to pick the next entry and read its closed flag
-  | passSwap (visited : List Nat) (k sid : Nat) (closed : Bool)    -- closed flag read; about to swap the cell (holds the scope's metric lock)
-  | passDeliver (visited : List Nat) (k sid : Nat) (closed : Bool) (pend : List Token)
-  | passAfter (visited : List Nat) (k sid : Nat) (closed : Bool)   -- visit done; holds RLock
-  | passUnlocked (visited : List Nat) (k sid : Nat)                -- RUnlock done: about to take the write lock and delete by identity
-  | passRelock (visited : List Nat) (k sid : Nat)                  -- write lock released: about to RLock again
-  | passClear (visited : List Nat) (k sid : Nat)                   -- holds RLock: about to clear the scope's metrics
+  /- `visited` = the ENTRIES `(key, scope id)` this pass has produced so far.  An entry (key, scope object) is produced at
+     most once per pass; a key whose entry was deleted and that was registered again for a new scope object is a NEW
+     entry and may be produced again (Go: "if a map entry is created during iteration, that entry may be produced during
+     the iteration or may be skipped"). -/
+  | passIter (visited : List (Nat × Nat))                          -- holds RLock; about to pick the next entry and read its closed flag
+  | passSwap (visited : List (Nat × Nat)) (k sid : Nat) (closed : Bool)  -- closed flag read; about to swap the cell (holds the scope's metric lock)
+  | passDeliver (visited : List (Nat × Nat)) (k sid : Nat) (closed : Bool) (pend : List Token)
+  | passAfter (visited : List (Nat × Nat)) (k sid : Nat) (closed : Bool)   -- visit done; holds RLock
+  | passUnlocked (visited : List (Nat × Nat)) (k sid : Nat)                -- RUnlock done: about to take the write lock and delete by identity
+  | passRelock (visited : List (Nat × Nat)) (k sid : Nat)                  -- write lock released: about to RLock again
+  | passClear (visited : List (Nat × Nat)) (k sid : Nat)                   -- holds RLock: about to clear the scope's metrics
   /- obtain(raw key r): `registry.Subscope` -/
   | obtProbe (r : Nat)                                             -- about to RLock and look the RAW key up
   | obtSwap (r sid : Nat)                                          -- found closed `sid` (holds RLock): about to report it
@@ -166,13 +174,15 @@ def step (san : Nat → Nat) (s : State) : Ev → Option State
     match pcOf s t with
     | .idle => none
     | .passIter visited =>
-      -- pick an unvisited registered key and read the closed flag of its scope
-      if visited.contains choice then none else
+      -- pick a registered key whose ENTRY (key, scope id as registered NOW) this pass has not produced yet, and read
+      -- the closed flag of its scope
       match lookup s choice with
       | none => none
-      | some sid => match scopeOf s sid with
+      | some sid =>
+        if visited.contains (choice, sid) then none else
+        match scopeOf s sid with
         | none => none
-        | some x => some (setPc s t (.passSwap (choice :: visited) choice sid x.closed))
+        | some x => some (setPc s t (.passSwap ((choice, sid) :: visited) choice sid x.closed))
     | .passSwap v k sid c =>
       match scopeOf s sid with
       | none => none
